@@ -564,7 +564,7 @@ func c03R1(p *Prog, r *Report) {
 		"accepted window "+w.Desc+" admits timestamps more than 30 s (whole seconds) from the clock")
 	// each parser hands its own `now` and a slice of its buffer to the predicate and propagates the error
 	for _, name := range []string{"ParseTCPRequestFixedLengthHeader", "ParseTCPResponseHeader", "ParseUDPClientMessageHeader", "ParseUDPServerMessageHeader"} {
-		pf := p.Func("ss2022", "", name)
+		pf := p.Inlined(p.Func("ss2022", "", name))
 		calls := pf.CallsTo(isFn(mp("ss2022"), "", "ValidateUnixEpochTimestamp"))
 		if len(calls) != 1 {
 			r.Fail(rule, "ss2022."+name+":validates-timestamp", p.posStr(pf.Body.Pos()), fmt.Sprintf("expected exactly one call of ValidateUnixEpochTimestamp, found %d", len(calls)))
